@@ -1086,6 +1086,11 @@ func (s *Stream) appendOutFramesLocked(w *packetWriter, pnum packetNumber, pto b
 		if !added {
 			return false
 		}
+		if int64(len(b)) < size {
+			// The frame was truncated to fit in the packet,
+			// and does not have the FIN bit set.
+			fin = false
+		}
 		s.out.copy(off, b)
 		end := off + int64(len(b))
 		if end > s.outmaxsent {
